@@ -3,9 +3,9 @@
 # usage: bin/baseline_off.sh [outfile]
 OUT=${1:-/verif/.build/baseline.json}
 mkdir -p /verif/.build
-export GOFLAGS=-mod=mod GOPROXY=off GOSUMDB=off
+export GOPROXY=off
 : > $OUT
-for m in $(cat /w/out/gomods.txt); do MF=$(cd /repo/$m && . /w/out/goenv.sh && gomodflag); (cd /repo/$m && go test $MF -json -vet=off -count=1 -timeout 25m ./... >> $OUT 2>/dev/null); done
+for m in $(cat /w/out/gomods.txt); do MF=$(cd /repo/$m && . /w/out/goenv.sh && gomodflag); (cd /repo/$m && go test $MF -json -vet=off -count=1 -timeout 25m ./... >> $OUT 2>>$OUT.err); done
 python3 - $OUT <<'PY'
 import json,sys
 base=json.load(open('/root/.vp/BASELINE.json'))
@@ -19,5 +19,5 @@ for l in open(sys.argv[1]):
         (passed if e['Action']=='pass' else failed).add(k)
 missing=[t for t in base['stable_pass'] if t not in passed]
 print('stable_pass:',len(base['stable_pass']),'passed now:',len([t for t in base['stable_pass'] if t in passed]))
-print('MISSING/FAILED from stable list:',missing)
+print('MISSING/FAILED from stable list (%d):'%len(missing),missing[:25])
 PY
